@@ -27,7 +27,9 @@ RULE = ("PDE instances with <=6 nodes and <=6 time levels (quick) / <=7 (thoroug
         "relative to the largest expected entry); declaration styles (csr/csc/dia sparse operators with scipy.linalg.solve / spsolve / cg returning "
         "(x, info); scalar and one-element sources; PDE forms writing into persistent buffers; solvers overwriting their inputs or returning one "
         "reused buffer; one input array overwritten in place between forward calls; histories of nearly identical parameters; keep-alive re-read "
-        "of every earlier output and input); solutions with two space axes; KL / KL_Full / CustomKL / Step / mapped fields of the test problems; values inside cells are "
+        "of every earlier output and input); DTYPE of operator / source / initial condition / parameter / grids / time steps (int64, int32, bool, float32, float64, Python list, "
+        "complex with zero imaginary part; one at a time and all together; the initial condition being the parameter object itself; result dtype of the "
+        "stored levels = DECISION: floating whenever the recurrence leaves the integers); solutions with two space axes; KL / KL_Full / CustomKL / Step / mapped fields of the test problems; values inside cells are "
         "seeded. distinct = distinct (configuration, parameter, API path); trivial = single-level time grids and refused "
         "constructors")
 
